@@ -13,8 +13,8 @@ Locations: the *shared* result/cache arrays living in the State (`shared`) and e
 Every `+=` on a shared array is two atomic steps (load into a register, store register + increment), so that a lost
 update can be exhibited; accesses to thread-local arrays are single steps.
 
-`Config.direct` lists the contributions that task 0 (the non-parallel forces, always run by worker 0) adds
-**directly into the shared arrays, outside the mutex** — always empty in the current code; non-empty in modes
+`Config.direct w` lists the contributions that worker `w` adds **directly into the shared arrays, outside the
+mutex** — always empty for every worker in the current code; non-empty for worker 0 (task 0, the non-parallel forces) in modes
 `CachedAndNonCached` / `NonCached` of the code before /repo commit 199e8a3a (finding F7, `configOld`).
 -/
 namespace C17
@@ -35,8 +35,8 @@ deriving DecidableEq, Repr
 structure Config (M : Type) where
   /-- number of worker threads that take part (`ParallelExecutor`: all `numMaxThreads`, or the caller alone) -/
   n : Nat
-  /-- increments task 0 applies directly to the shared arrays without the mutex (worker 0) -/
-  direct : List M
+  /-- increments worker `w` applies directly to the shared arrays without the mutex -/
+  direct : Nat → List M
   /-- increments worker `w` accumulates into its thread-local arrays, in order -/
   contribs : Nat → List M
 
@@ -91,7 +91,7 @@ enabled force elements in index order; `numThreads` already passed through `effe
 def configV (old : Bool) (numThreads : Nat) (mode : Mode) (forces : List (ForceElt M)) : Config M :=
   let T := 1 + (forces.filter (fun f => f.parallel)).length
   { n := workers numThreads,
-    direct := taskDirectV old mode forces,
+    direct := fun w => if w = 0 then taskDirectV old mode forces else [],
     contribs := fun w => (tasksOf numThreads T w).flatMap (taskLocalV old mode forces) }
 
 /-- the CURRENT code -/
@@ -131,15 +131,58 @@ def configSubsystem (numThreads : Nat) (mode : Mode) (all : List (MForce M)) : C
   let forces := enabledElts all
   let nt := effectiveThreads numThreads hp
   let T := 1 + (forces.filter (fun f => f.parallel)).length
-  { n := workers nt, direct := [],
+  { n := workers nt, direct := fun _ => [],
     contribs := fun w => (tasksOf nt T w).flatMap (taskLocalC hp mode forces) }
+
+/-! ## the executor and the task class as subsystem state (order of `setNumberOfThreads` and `realizeTopology`) -/
+
+/-- what `GeneralForceSubsystemRep` holds: the executor's thread count and the class of `calcForcesTask` -/
+structure SubState where
+  /-- `calcForcesExecutor->getMaxThreads()` -/
+  execThreads : Nat
+  /-- `calcForcesTask` is a `CalcForcesParallelTask` (thread-local accumulators) rather than a
+  `CalcForcesNonParallelTask` (accumulators are MEMBERS of the one task object: "not thread-safe") -/
+  taskParallel : Bool
+deriving DecidableEq, Repr
+
+inductive SubOp
+  /-- `setNumberOfThreads(n)`: `calcForcesExecutor = new ParallelExecutor(n)` — does not invalidate the topology
+  cache and does not look at the task class -/
+  | setNumberOfThreads (n : Nat)
+  /-- `realizeSubsystemTopologyImpl` for a subsystem that has / has no parallel force: chooses the task class and,
+  for the non-parallel task, replaces the executor by `ParallelExecutor(1)` -/
+  | realizeTopology (hasParallel : Bool)
+deriving DecidableEq, Repr
+
+def SubState.apply (s : SubState) : SubOp → SubState
+  | .setNumberOfThreads n => { s with execThreads := n }
+  | .realizeTopology hp => { execThreads := if hp then s.execThreads else 1, taskParallel := hp }
+
+/-- constructor: `new ParallelExecutor()` (processor count), no task yet -/
+def SubState.init (ncpu : Nat) : SubState := ⟨ncpu, false⟩
+
+/-- the combination the code relies on: the non-parallel task is only ever run by a single thread.  This is the
+validity condition of the transition-system model below (thread-local accumulators). -/
+def ThreadSafe (s : SubState) : Bool := s.taskParallel || decide (s.execThreads < 2)
+
+/-- one `realizeSubsystemDynamicsImpl` in subsystem state `st` -/
+def configOfState (st : SubState) (mode : Mode) (all : List (MForce M)) : Config M :=
+  let forces := enabledElts all
+  let T := 1 + (forces.filter (fun f => f.parallel)).length
+  { n := workers st.execThreads, direct := fun _ => [],
+    contribs := fun w => (tasksOf st.execThreads T w).flatMap (taskLocalC st.taskParallel mode forces) }
+
+/-- content of the position-only cache that `realizeSubsystemDynamicsImpl` adds after a `NonCached` run: the sum
+left there by the preceding `CachedAndNonCached` run at the same positions -/
+def cacheSum [Add M] [OfNat M 0] (forces : List (ForceElt M)) : M :=
+  (forces.filter (·.posOnly)).foldr (fun f acc => f.value + acc) 0
 
 /-! ## transition system -/
 
 inductive Pc
   | init                 -- `initialize()`: zero the thread-local arrays
-  | direct (k : Nat)     -- worker 0: load the shared array for the k-th direct increment        (no mutex)
-  | directSt (k : Nat)   -- worker 0: store register + increment into the shared array           (no mutex)
+  | direct (k : Nat)     -- load the shared array for the worker's k-th direct increment          (no mutex)
+  | directSt (k : Nat)   -- store register + increment into the shared array                       (no mutex)
   | exec (k : Nat)       -- k-th increment of the thread-local arrays
   | finLock              -- `incrementWaitingThreads`: lock the executor's mutex
   | finLoad              -- `finish()`: load the shared array                                    (mutex held)
@@ -164,19 +207,19 @@ variable [Add M] [OfNat M 0]
 
 def init (shared0 : M) : State M := { shared := shared0, mutex := none, wk := fun _ => ⟨.init, 0, 0⟩ }
 
-/-- program counter after the `k`-th direct increment -/
-def afterDirect (c : Config M) (k : Nat) : Pc := if k < c.direct.length then .direct k else .exec 0
+/-- program counter of worker `w` after its `k`-th direct increment -/
+def afterDirect (c : Config M) (w k : Nat) : Pc := if k < (c.direct w).length then .direct k else .exec 0
 
 /-- one atomic step of worker `w` (`none` = not enabled / finished) -/
 def step (c : Config M) (s : State M) (w : Nat) : Option (State M) :=
   if w < c.n then
     let x := s.wk w
     match x.pc with
-    | .init => some { s with wk := upd s.wk w { x with loc := 0, pc := if w = 0 then afterDirect c 0 else .exec 0 } }
+    | .init => some { s with wk := upd s.wk w { x with loc := 0, pc := afterDirect c w 0 } }
     | .direct k => some { s with wk := upd s.wk w { x with reg := s.shared, pc := .directSt k } }
     | .directSt k =>
-      match c.direct[k]? with
-      | some d => some { s with shared := x.reg + d, wk := upd s.wk w { x with pc := afterDirect c (k + 1) } }
+      match (c.direct w)[k]? with
+      | some d => some { s with shared := x.reg + d, wk := upd s.wk w { x with pc := afterDirect c w (k + 1) } }
       | none => some { s with wk := upd s.wk w { x with pc := .exec 0 } }
     | .exec k =>
       match (c.contribs w)[k]? with
@@ -222,11 +265,40 @@ def sumList : List M → M
 
 /-- sum of everything the workers are asked to add -/
 def totalOf (c : Config M) : M :=
-  sumList c.direct + sumList ((List.range c.n).map (fun w => sumList (c.contribs w)))
+  sumList ((List.range c.n).map (fun w => sumList (c.direct w) + sumList (c.contribs w)))
+
+/-- serial sum of the forces evaluated in this mode, in index order (what the property demands of the total) -/
+def serialSumD (mode : Mode) (forces : List (ForceElt M)) : M :=
+  sumList ((forces.filter (evaluated mode)).map (·.value))
 
 /-- a schedule under which every worker runs to completion one after the other (trivially race free): used by
 the driver -/
 def sequentialSchedule (c : Config M) : List Nat :=
-  (List.range c.n).flatMap fun w => List.replicate (2 * c.direct.length + (c.contribs w).length + 8) w
+  (List.range c.n).flatMap fun w => List.replicate (2 * (c.direct w).length + (c.contribs w).length + 8) w
+
+/-! ## the non-parallel task run by several workers (what `setNumberOfThreads` AFTER `realizeTopology` produces) -/
+namespace NPT
+
+/-- `CalcForcesNonParallelTask` on `n ≥ 2` workers: `initialize()` zeroes, `execute(0)` (worker 0 only) fills and
+`finish()` (under the executor's mutex) adds the SAME member array `mem` of the one task object. -/
+structure St where
+  shared : Nat
+  mem : Nat
+  pc : Nat → Nat      -- 0 initialize, 1 execute, 2 finish, 3 done
+
+def init : St := ⟨0, 0, fun _ => 0⟩
+
+def step (f : Nat) (s : St) (w : Nat) : St :=
+  match s.pc w with
+  | 0 => { s with mem := 0, pc := upd s.pc w 1 }
+  | 1 => { s with mem := if w = 0 then s.mem + f else s.mem, pc := upd s.pc w 2 }
+  | 2 => { s with shared := s.shared + s.mem, pc := upd s.pc w 3 }
+  | _ => s
+
+def run (f : Nat) (s : St) : List Nat → St
+  | [] => s
+  | w :: ws => run f (step f s w) ws
+
+end NPT
 
 end C17
